@@ -23,6 +23,16 @@ func genC16(enum bool) func(r *prng) *plan {
 			// enumeration class: one outcome x direction x limit per run, decoded from the seed
 			return p
 		}
+		if r.chance(4) {
+			// full offer queue: more slots than the queue (1000) and its 50 workers can absorb, every peer
+			// silent, a burst of gossip rounds at one instant
+			p.Cfg["limit"] = int64(1400 + r.intn(400))
+			p.Cfg["vv"], p.Cfg["pv"], p.Cfg["np"] = int64(r.intn(3)), int64(r.intn(3)), 8
+			for i := 0; i < 150+r.intn(40); i++ {
+				p.Ops = append(p.Ops, opSpec{K: "gossip", N: []int64{int64(r.u64() >> 1), 50, 0, 0, 0, 0, 0, 0, 0, 0, 1}})
+			}
+			return p
+		}
 		p.Cfg["limit"] = int64(r.intn(6))
 		p.Cfg["vv"] = int64(r.intn(3))
 		p.Cfg["pv"] = int64(r.intn(3))
@@ -172,6 +182,12 @@ func runC16(seed uint64, enum bool) {
 			w.op("gossip %d bytes -> %d targets err=%v; puppet outcomes %v", len(val), n, err, names)
 			w.abstract("gossip n=%d %v", n, names)
 			w.probe("gossip")
+			if op.n(2+np) == 1 {
+				if vp.p.VerifOfferQueueLen() >= 990 {
+					w.probe("offer_queue_full")
+				}
+				continue // burst: the next round follows at the same instant
+			}
 			w.step(time.Millisecond)
 		case "inoffer":
 			if stopped {
